@@ -11,6 +11,7 @@ import TracingModel.Core.LevelsDriver
 import TracingModel.Core.CoreDriver
 import TracingModel.Core.RegistryDriver
 import TracingModel.Core.SpanDriver
+import TracingModel.Core.DirectiveDriver
 
 open TM TM.Wire
 
@@ -49,6 +50,7 @@ def dispatch (prop mode : String) : Option (List String → String) :=
   | "C05", "spec" => some RegistryDriver.spec
   | "C06", "model" => some RegistryDriver.model
   | "C06", "spec" => some RegistryDriver.spec
+  | "C11", "model" => some DirectiveDriver.model
   | "C19", "model" => some LevelsDriver.model
   | "C19", "judge" => some LevelsDriver.judge
   | "C20", "model" => some c20Model
